@@ -165,6 +165,18 @@ func init() {
 		}
 		return Slice{Arr: arr, Len: len(arr.E), Cap: len(arr.E)}
 	})
+	v("ExploreMapOrderIn", func(ex *Exec, c *frame, fn *ssa.Function, a []Value) Value {
+		sl := a[0].(Slice)
+		if sl.Len == 0 {
+			ex.orderOnly = nil
+			return nil
+		}
+		ex.orderOnly = map[string]bool{}
+		for i := 0; i < sl.Len; i++ {
+			ex.orderOnly[mustStr(sl.Arr.E[sl.Off+i].V)] = true
+		}
+		return nil
+	})
 	v("NoOrderLemma", func(ex *Exec, c *frame, fn *ssa.Function, a []Value) Value {
 		ex.noOrderLemma = a[0].(bool)
 		return nil
